@@ -1,7 +1,7 @@
 (* C04 - Returned paths stay within the state-space bounds. *)
 From Coq Require Import ZArith NArith List Bool Floats Reals.
 From OX Require Import Numerics.FloatBits Planners.Model Proofs.BoundsInv
-  Spaces.SpacesR Spaces.SpacesR_RV Spaces.SpacesR_SO2 Spaces.SpacesR_SO3.
+  Spaces.SpacesR Spaces.SpacesR_RV Spaces.SpacesR_SO2 Spaces.SpacesR_SO3 Spaces.SO3Cone.
 Import ListNotations.
 
 Section C04.
@@ -56,7 +56,18 @@ Theorem C04_refuted_so3_cone : exists c p q t,
   qunit c /\ qunit p /\ qunit q /\ so3_dist c p <= 2 /\ so3_dist c q <= 2 /\ 0 <= t <= 1 /\ Rabs (qdot p q) < 1 /\
   ~ so3_dist c (so3_slerp p q t) <= 2.
 Proof. exact so3_cone_not_convex. Qed.
-(* NOT proved (so3_cone_convex_partial): cones of radius < PI/2 are geodesically convex. *)
+(* ... while rotation cones of radius < PI/2 ARE convex under both branches of the library's interpolation
+   (SLERP and normalised LERP, with its q / -q sign choice): the boundary between the two classes is exact *)
+Theorem C04_so3_cone_convex_slerp : forall c p q t m,
+  qunit c -> qunit p -> qunit q -> 0 <= m < PI / 2 ->
+  so3_dist c p <= m -> so3_dist c q <= m -> 0 <= t <= 1 -> Rabs (qdot p q) < 1 ->
+  so3_dist c (so3_slerp p q t) <= m.
+Proof. exact so3_cone_convex_slerp. Qed.
+Theorem C04_so3_cone_convex_nlerp : forall c p q t m,
+  qunit c -> qunit p -> qunit q -> 0 <= m < PI / 2 ->
+  so3_dist c p <= m -> so3_dist c q <= m -> 0 <= t <= 1 ->
+  so3_dist c (so3_nlerp p q t) <= m.
+Proof. exact so3_cone_convex_nlerp. Qed.
 
 Print Assumptions C04_rrt.
 Print Assumptions C04_rrtstar.
@@ -66,3 +77,5 @@ Print Assumptions C04_box_convex.
 Print Assumptions C04_so2_interval_convex_up_to_span_pi.
 Print Assumptions C04_refuted_so2_span_gt_pi.
 Print Assumptions C04_refuted_so3_cone.
+Print Assumptions C04_so3_cone_convex_slerp.
+Print Assumptions C04_so3_cone_convex_nlerp.
